@@ -42,5 +42,9 @@ def main():
 
 
 if __name__ == "__main__":
+    if os.environ.get("VERIF_DUMP_AFTER"):  # debugging aid: where is a slow case spending its time?
+        import faulthandler
+
+        faulthandler.dump_traceback_later(int(os.environ["VERIF_DUMP_AFTER"]), repeat=True)
     sys.stdout.reconfigure(line_buffering=True)
     sys.exit(main())
